@@ -149,10 +149,13 @@ def relation_dev(got, base, mats, axes, floor=1e-3, nat=None):
     """Deviation of `got` from `base` with mats applied on axes, relative to |mats| (|base| + floor*nat) |mats|.
 
     nat: natural magnitude per element (natural_scale); without it the largest |base| element is used."""
-    want = apply_axes(base, mats, axes)
-    if nat is None:
-        nat = np.abs(base).max() if base.size else 0.0
-    scale = apply_axes(np.abs(base) + floor * nat, [np.abs(m) for m in mats], axes) + 1e-300
+    try:
+        want = apply_axes(base, mats, axes)
+        if nat is None:
+            nat = np.abs(base).max() if base.size else 0.0
+        scale = apply_axes(np.abs(base) + floor * nat, [np.abs(m) for m in mats], axes) + 1e-300
+    except ValueError:  # the library returned an array whose basis axes do not have the size of the basis
+        return float("inf"), None
     if got.shape != want.shape:
         return float("inf"), None
     if got.size == 0:
@@ -183,6 +186,12 @@ class Scales:
     def nat(self, q, base):
         if self._pf is None:
             self._pf = per_function_scales(self.basis, self.env)
+        try:
+            return self._nat(q, base)
+        except (ValueError, IndexError):  # malformed library output: fall back to the largest element
+            return None
+
+    def _nat(self, q, base):
         if q.name == "moment_integral":
             q.env_orders = np.array(self.env["orders"], dtype=int).reshape(-1, 3).sum(axis=1)
         if q.axes == (0,):
